@@ -614,7 +614,7 @@ def table_cases(draw):
     else:
         wrap_cols = sorted(set(draw(st.lists(st.integers(0, ncols - 1), max_size=ncols))))
     cell = {'narrow': NARROW, 'wide': WIDE, 'any': CELL}
-    nrows = draw(st.integers(1, 5))
+    nrows = draw(st.sampled_from([1, 2, 3, 3, 4, 5]))
     rows = []
     for r in range(nrows):
         header = r == 0 and draw(st.booleans())
@@ -622,17 +622,28 @@ def table_cases(draw):
             rows.append({'span': True, 'header': False, 'cells': [draw(CELL)]})
         else:
             rows.append({'span': False, 'header': header, 'cells': [draw(NARROW if header else cell[profile[k]]) for k in range(ncols)]})
+    # one rowspan cell (never in a header row, never together with colspan rows): the rows below leave its column out
+    rowspan = None
+    first = 1 if rows[0]['header'] else 0
+    if ncols >= 2 and nrows - first >= 2 and not any(row['span'] for row in rows) and draw(st.sampled_from([0, 1])):
+        r0 = draw(st.integers(first, nrows - 2))
+        n = draw(st.integers(2, min(3, nrows - r0)))
+        k0 = draw(st.integers(0, ncols - 1))
+        rowspan = [r0, k0, n]
+        for r in range(r0 + 1, r0 + n):
+            rows[r]['cells'][k0] = None
     classes = ['default'] + [(draw(st.sampled_from(['', 'centre'])) + (':w' if k in wrap_cols else '')) for k in range(ncols)]
     while classes and classes[-1] == '':
         classes.pop()
     items = draw(st.lists(st.lists(TWORD, min_size=1, max_size=25), min_size=0, max_size=3))
     intro, outro = draw(TEXT), draw(TEXT)
     block = ['#TABLE(%s)' % ','.join(classes)] if classes else ['#TABLE']
-    for row in rows:
+    for r, row in enumerate(rows):
         if row['span']:
             block.append('{ =c%d %s }' % (ncols, ' '.join(row['cells'][0])))
         else:
-            block.append('{ %s }' % ' | '.join(('=h ' if row['header'] else '') + ' '.join(c) for c in row['cells']))
+            block.append('{ %s }' % ' | '.join(('=h ' if row['header'] else '') + ('=r%d ' % rowspan[2] if rowspan and [r, k] == rowspan[:2] else '') + ' '.join(c)
+                                              for k, c in enumerate(row['cells']) if c is not None))
     block.append('TABLE#')
     if items:
         block.append('#LIST')
@@ -645,7 +656,7 @@ def table_cases(draw):
     else:
         lines += ['c32768 XOR A ; first'] + para + [' 32769 RET ; last']
     return {'kind': kind, 'skool': '\n'.join(lines) + '\n', 'props': props, 'where': where, 'ncols': ncols, 'wrap_cols': wrap_cols,
-            'rows': rows, 'items': items, 'intro': intro, 'outro': outro}
+            'rows': rows, 'items': items, 'intro': intro, 'outro': outro, 'rowspan': rowspan}
 
 
 def table_oracle(case, rec=None):
@@ -710,7 +721,7 @@ def table_oracle(case, rec=None):
             exp_span += row['cells'][0]
         else:
             for k in range(ncols):
-                exp_cols[k] += row['cells'][k]
+                exp_cols[k] += row['cells'][k] or []
     for k in range(ncols):
         if cols[k] != exp_cols[k]:
             raise Violation('table:words', 'words of column %d differ: %s' % (k + 1, _first_diff(cols[k], exp_cols[k])), case)
@@ -729,8 +740,8 @@ def table_oracle(case, rec=None):
         # "The :w indicator marks a column as a candidate for having its width reduced (by wrapping the text it contains)
         # so that the table will be no more than <width> characters wide": when no word of a wrap column is longer than
         # wrap-column-width-min, the table must fit if it can (each wrap column reduced to that minimum)
-        natural = [max(len(' '.join(row['cells'][k])) for row in case['rows']) for k in range(ncols)]
-        longest = [max(len(w) for row in case['rows'] for w in row['cells'][k]) for k in range(ncols)]
+        natural = [max(len(' '.join(row['cells'][k])) for row in case['rows'] if row['cells'][k]) for k in range(ncols)]
+        longest = [max(len(w) for row in case['rows'] for w in row['cells'][k] or ()) for k in range(ncols)]
         if all(longest[k] <= wmin for k in case['wrap_cols']):
             minimal = 3 * (ncols + 1) - 2 + sum(min(natural[k], wmin) if k in case['wrap_cols'] else natural[k] for k in range(ncols))
             if minimal <= maxw:
@@ -740,7 +751,7 @@ def table_oracle(case, rec=None):
             rec.note('table:width-not-judged:unbreakable-word-in-wrap-column')
     for k in range(ncols):
         if k not in case['wrap_cols'] and nospan:
-            natural = max(len(' '.join(row['cells'][k])) for row in case['rows'])
+            natural = max(len(' '.join(row['cells'][k])) for row in case['rows'] if row['cells'][k])
             if colw[k] != natural:
                 raise Violation('table:width', 'column %d (not wrappable) is %d wide, its widest cell %d' % (k + 1, colw[k], natural), case)
     # --- surrounding text and list
@@ -764,7 +775,7 @@ def table_oracle(case, rec=None):
         raise Violation('table:list-items', '%d bullets for %d list items' % (nbul, len(case['items'])), case)
     if rec is not None:
         rec.case((case['skool'], repr(sorted(props.items()))), wrapped or L > maxw,
-                 ['table', 'table:' + case['where']] + (['table:wrapped'] if wrapped else []) + (['table:over-width'] if L > maxw else []) + (['table:list'] if case['items'] else []),
+                 ['table', 'table:' + case['where']] + (['table:rowspan'] if case.get('rowspan') else []) + (['table:wrapped'] if wrapped else []) + (['table:over-width'] if L > maxw else []) + (['table:list'] if case['items'] else []),
                  {'props': props, 'skool': case['skool'][:500]})
 
 
@@ -785,13 +796,16 @@ def table_html_oracle(case, rec=None):
     rows = re.findall(r'<tr>(.*?)</tr>', body, re.S)
     if len(rows) != len(case['rows']):
         raise Violation('table:html:rows', '%d <tr> rows for %d table rows' % (len(rows), len(case['rows'])), case)
-    for row, exp in zip(rows, case['rows']):
+    for ri, (row, exp) in enumerate(zip(rows, case['rows'])):
         cells = re.findall(r'<(t[dh])([^>]*)>(.*?)</t[dh]>', row, re.S)
         texts = [words(htmlmod.unescape(re.sub(r'<[^>]+>', ' ', c[2]))) for c in cells]
-        if texts != [list(c) for c in exp['cells']]:
+        if texts != [list(c) for c in exp['cells'] if c is not None]:
             raise Violation('table:html:words', 'cells %r, expected %r' % (texts, exp['cells']), case)
         if exp['span'] and 'colspan="%d"' % case['ncols'] not in cells[0][1]:
             raise Violation('table:html:colspan', 'spanning cell rendered as %r' % (cells[0][1],), case)
+        rs = case.get('rowspan')
+        if rs and ri == rs[0] and 'rowspan="%d"' % rs[2] not in cells[rs[1]][1]:
+            raise Violation('table:html:rowspan', 'rowspan cell rendered as %r' % (cells[rs[1]][1],), case)
         if any((c[0] == 'th') != exp['header'] for c in cells):
             raise Violation('table:html:header', 'header flags differ in row %r' % (row[:80],), case)
     items = re.findall(r'<li>(.*?)</li>', page, re.S)
